@@ -3,7 +3,17 @@
 Nothing outside the scenario's scratch directory is touched and no real process is ever
 started: while target() runs,
   * subprocess.run (the module attribute used by Reduino.toolchain.pio) is a recorder that
-    answers for a present/absent `pio` and for non-zero exits of the build / upload,
+    answers for a usable `pio`, for one that cannot be used (scenario key "pio": true/"ok",
+    false/"absent" -> FileNotFoundError, "noexec" -> PermissionError, "badformat" ->
+    OSError(ENOEXEC), "notdir" -> NotADirectoryError, each on every start of pio;
+    "exit" -> `pio --version` starts and exits non-zero), for non-zero exits of the build /
+    upload (faults "build", "upload") and for a pio that can no longer be started at the
+    build / upload although the probe worked (faults "buildexec", "uploadexec"),
+  * an injected file-system failure is the OSError named by "fkind" (PermissionError,
+    ENOSPC, FileNotFoundError, EROFS),
+  * the default text encoding of the platform is a scenario parameter ("locale", default
+    utf-8): a read_text / write_text on the script or inside the project that does not
+    name an encoding gets that one, as it would on a machine with that locale,
   * tempfile.mkdtemp creates its directory inside the scratch directory (or fails),
   * pathlib.Path.read_text / write_text / mkdir are wrapped: calls on the fake __main__
     file and inside the project directory are recorded and may fail by injection, all
@@ -76,6 +86,30 @@ def expected_for(src):
         return {"status": "Other:" + type(e).__name__}
 
 
+EXEC_FAIL = {
+    "absent": lambda: FileNotFoundError(2, "No such file or directory", "pio"),
+    "noexec": lambda: PermissionError(13, "Permission denied", "pio"),
+    "badformat": lambda: OSError(8, "Exec format error", "pio"),
+    "notdir": lambda: NotADirectoryError(20, "Not a directory", "pio"),
+}
+
+
+FILE_FAIL = {
+    "perm": lambda p: PermissionError(13, "Permission denied (injected)", p),
+    "nospc": lambda p: OSError(28, "No space left on device (injected)", p),
+    "notfound": lambda p: FileNotFoundError(2, "No such file or directory (injected)", p),
+    "rofs": lambda p: OSError(30, "Read-only file system (injected)", p),
+}
+
+
+def pio_state(v):
+    if v is True:
+        return "ok"
+    if v is False or v is None:
+        return "absent"
+    return str(v)
+
+
 def classify_argv(argv):
     try:
         a = [str(x) for x in argv]
@@ -119,6 +153,13 @@ def ini_fields(parsed):
 
 def run_scenario(sc, scripts, expected, root):
     faults = set(sc["faults"])
+    state = pio_state(sc.get("pio"))
+    xkind = sc.get("xkind") or "absent"          # how a start of pio fails at the build / upload
+    loc = sc.get("locale") or "utf-8"
+    fkind = sc.get("fkind") or "perm"            # which OSError an injected file-system failure is
+
+    def file_fail(path):
+        return FILE_FAIL.get(fkind, FILE_FAIL["perm"])(path)
     scratch = pathlib.Path(ORIG["mkdtemp"](prefix="sc-", dir=root))
     main_path = scratch / "sketch_main.py"
     src = scripts[sc["script"]]
@@ -151,9 +192,13 @@ def run_scenario(sc, scripts, expected, root):
                "cwd": dtag(cwd), "check": check, "rc": None}
         runs.append(rec)
         events.append([kind] if kind == "RunPioVersion" else ([kind, dtag(cwd)] if kind != "RunOther" else [kind, rec["argv"]]))
-        if not sc["pio"]:
-            raise FileNotFoundError(2, "No such file or directory", "pio")
-        rc = int(sc.get("rc", 1) or 1) if ((kind == "RunBuild" and "build" in faults) or (kind == "RunUpload" and "upload" in faults)) else 0
+        if state in EXEC_FAIL:
+            raise EXEC_FAIL[state]()
+        if (kind == "RunBuild" and "buildexec" in faults) or (kind == "RunUpload" and "uploadexec" in faults):
+            raise EXEC_FAIL[xkind if xkind in EXEC_FAIL else "absent"]()
+        fails = ((kind == "RunBuild" and "build" in faults) or (kind == "RunUpload" and "upload" in faults)
+                 or (kind == "RunPioVersion" and state == "exit"))
+        rc = int(sc.get("rc", 1) or 1) if fails else 0
         rec["rc"] = rc
         if rc and check:
             raise subprocess.CalledProcessError(rc, args)
@@ -168,7 +213,7 @@ def run_scenario(sc, scripts, expected, root):
     def fake_mkdtemp(suffix=None, prefix=None, dir=None):
         events.append(["Mkdtemp"])
         if "mkdtemp" in faults:
-            raise PermissionError(13, "Permission denied (injected)", str(dir or scratch))
+            raise file_fail(str(dir or scratch))
         d = ORIG["mkdtemp"](suffix=suffix, prefix=prefix, dir=str(scratch))
         if st["tmp"] is None:
             st["tmp"] = os.path.abspath(d)
@@ -178,16 +223,26 @@ def run_scenario(sc, scripts, expected, root):
     def rel(path):
         return os.path.relpath(os.path.abspath(os.fspath(path)), st["tmp"]).replace(os.sep, "/")
 
+    def with_locale(a, kw):
+        """an omitted / None encoding means the platform default: the scenario's locale"""
+        if a:
+            return ((a[0] if a[0] is not None else loc),) + tuple(a[1:]), kw
+        if kw.get("encoding") is None:
+            kw = dict(kw, encoding=loc)
+        return a, kw
+
     def w_read_text(self, *a, **kw):
         if os.path.abspath(os.fspath(self)) == main_abs:
             events.append(["ReadMain"])
             if "readmain" in faults:
-                raise PermissionError(13, "Permission denied (injected)", str(self))
+                raise file_fail(str(self))
+            a, kw = with_locale(a, kw)
         return ORIG["read_text"](self, *a, **kw)
 
     def w_write_text(self, data, *a, **kw):
         if under(self, st["tmp"]):
             r = rel(self)
+            a, kw = with_locale(a, kw)
             if r == "src/main.cpp":
                 tag = "other"
                 if any(data is c or data == c for c in st["cpp"]):
@@ -197,7 +252,7 @@ def run_scenario(sc, scripts, expected, root):
                 events.append(["WriteMain", tag])
                 writes.setdefault("main_arg", sha(data))
                 if "writemain" in faults:
-                    raise PermissionError(13, "Permission denied (injected)", str(self))
+                    raise file_fail(str(self))
             elif r == "platformio.ini":
                 f = ini_fields(read_ini(data)) if isinstance(data, str) else None
                 if f is None:
@@ -209,8 +264,10 @@ def run_scenario(sc, scripts, expected, root):
                             "board" if f[2] == sc["board"] else "other",
                             "libs" if f[3] in libs_known else ("omitted" if f[3] == [] else "other")]
                 events.append(["WriteIni"] + tags)
+                if isinstance(data, str):
+                    writes.setdefault("ini_arg", data[:4000])
                 if "writeini" in faults:
-                    raise PermissionError(13, "Permission denied (injected)", str(self))
+                    raise file_fail(str(self))
             else:
                 events.append(["WriteOther", r])
         elif under(self, scratch_abs):
@@ -223,7 +280,7 @@ def run_scenario(sc, scripts, expected, root):
             r = rel(self)
             events.append(["Mkdir", "tmp"] if r == "src" else ["MkdirOther", r])
             if "mkdir" in faults:
-                raise PermissionError(13, "Permission denied (injected)", str(self))
+                raise file_fail(str(self))
         elif outer and under(self, scratch_abs):
             events.append(["MkdirOther", os.path.relpath(os.path.abspath(os.fspath(self)), scratch_abs)])
         st["depth"] += 1
@@ -337,6 +394,7 @@ def run_scenario(sc, scripts, expected, root):
         "returned_sha": sha(ret_val) if isinstance(ret_val, str) else None,
         "returned_equals_expected": isinstance(ret_val, str) and exp["status"] == "ok" and ret_val == exp["cpp"],
         "main_arg_sha": writes.get("main_arg"),
+        "ini_arg": writes.get("ini_arg"),
     }
     shutil.rmtree(scratch, ignore_errors=True)
     return out
